@@ -33,6 +33,7 @@ type AtCall struct {
 	Assert  *Clause
 	Assume  *Clause  // only allowed for extern/trusted hints; counted as assumption
 	Ghost   []string // ghost updates "x = e"
+	After   bool     // `after call F ghost x = e`: applied after the call, results bound to ret0, ret1, ...
 }
 
 type GhostUpdate struct {
@@ -160,7 +161,7 @@ type GlobalFact struct {
 }
 
 var topKeywords = map[string]bool{"pred": true, "global": true, "spec": true, "ghost": true, "invariant": true, "guarded": true, "lemma": true, "axiom": true, "extern": true, "interface": true, "func": true, "default": true}
-var subKeywords = map[string]bool{"assumes": true, "props": true, "model": true, "strings": true, "bytes": true, "requires": true, "ensures": true, "panics": true, "assigns": true, "pure": true, "loop": true, "at": true, "flag": true, "decreases": true, "use": true, "known": true, "hyp": true, "protects": true, "clause": true}
+var subKeywords = map[string]bool{"after": true, "assumes": true, "props": true, "model": true, "strings": true, "bytes": true, "requires": true, "ensures": true, "panics": true, "assigns": true, "pure": true, "loop": true, "at": true, "flag": true, "decreases": true, "use": true, "known": true, "hyp": true, "protects": true, "clause": true}
 
 type rawLine struct {
 	text string
@@ -547,6 +548,33 @@ func ParseContractLines(pkg, path string, lines []rawLine) *ContractFile {
 				default:
 					errf(d.loc, "bad loop clause %q", f[1])
 				}
+			case "after":
+				// after call F[#i] ghost x = e     (results available as ret0, ret1, ...)
+				t := strings.TrimSpace(d.text)
+				if !strings.HasPrefix(t, "call ") {
+					errf(d.loc, "bad after clause")
+					continue
+				}
+				t = strings.TrimSpace(t[5:])
+				sp := strings.IndexAny(t, " \t")
+				if sp < 0 {
+					errf(d.loc, "bad after clause")
+					continue
+				}
+				callee := t[:sp]
+				rest := strings.TrimSpace(t[sp:])
+				ac := &AtCall{After: true}
+				if h := strings.Index(callee, "#"); h >= 0 {
+					ac.Ordinal, _ = strconv.Atoi(callee[h+1:])
+					callee = callee[:h]
+				}
+				ac.Callee = callee
+				if !strings.HasPrefix(rest, "ghost ") {
+					errf(d.loc, "after call supports only ghost updates")
+					continue
+				}
+				ac.Ghost = append(ac.Ghost, strings.TrimSpace(rest[6:]))
+				cur.AtCalls = append(cur.AtCalls, ac)
 			case "at":
 				// at call F[#i] assert e | at call F[#i] ghost x = e | at exit ghost x = e [if c] | at entry ghost x = e
 				t := strings.TrimSpace(d.text)
